@@ -246,14 +246,21 @@ static size_t safec_ntoa_format(out_fct_type out, const char *funcname,
                                 char *buf, size_t len, bool negative,
                                 unsigned int base, unsigned int prec,
                                 unsigned int width, unsigned int flags) {
-    // pad leading zeros
+    const size_t unpadded_len = len;
+
+    // pad leading zeros: the precision is a minimum number of digits,
+    // with or without the '-' flag
+    while ((len < prec) && (len < PRINTF_NTOA_BUFFER_SIZE)) {
+        buf[len++] = '0';
+    }
+    // zeros written for the precision already give %#o its leading zero
+    if ((base == 8U) && (len > unpadded_len)) {
+        flags &= ~FLAGS_HASH;
+    }
     if (!(flags & FLAGS_LEFT)) {
         if (width && (flags & FLAGS_ZEROPAD) &&
             (negative || (flags & (FLAGS_PLUS | FLAGS_SPACE)))) {
             width--;
-        }
-        while ((len < prec) && (len < PRINTF_NTOA_BUFFER_SIZE)) {
-            buf[len++] = '0';
         }
         while ((flags & FLAGS_ZEROPAD) && (len < width) &&
                (len < PRINTF_NTOA_BUFFER_SIZE)) {
@@ -265,8 +272,12 @@ static size_t safec_ntoa_format(out_fct_type out, const char *funcname,
     if (flags & FLAGS_HASH) {
         if (!(flags & FLAGS_PRECISION) && len &&
             ((len == prec) || (len == width))) {
-            len--;
-            if (len && (base == 16U)) {
+            // make room for the prefix by taking back padding zeros only,
+            // never digits of the value
+            if (unpadded_len < len) {
+                len--;
+            }
+            if (len && (base == 16U) && (unpadded_len < len)) {
                 len--;
             }
         }
@@ -312,8 +323,8 @@ static size_t safec_ntoa_long(out_fct_type out, const char *funcname,
     char buf[PRINTF_NTOA_BUFFER_SIZE];
     size_t len = 0U;
 
-    // no hash for 0 values
-    if (!value) {
+    // no hash for 0 values (but %#.0o of 0 is a single 0)
+    if (!value && !((base == 8U) && (flags & FLAGS_PRECISION))) {
         flags &= ~FLAGS_HASH;
     }
 
@@ -342,8 +353,8 @@ static size_t safec_ntoa_long_long(out_fct_type out, const char *funcname,
     char buf[PRINTF_NTOA_BUFFER_SIZE];
     size_t len = 0U;
 
-    // no hash for 0 values
-    if (!value) {
+    // no hash for 0 values (but %#.0o of 0 is a single 0)
+    if (!value && !((base == 8U) && (flags & FLAGS_PRECISION))) {
         flags &= ~FLAGS_HASH;
     }
 
